@@ -8,6 +8,11 @@
 //   phase 2: logging Begin/End events stamped by a relaxed atomic counter; the merged log
 //            is validated by TLC against ReadersTrace.tla.
 // Every result obtained by a thread is compared with the sequential baseline.
+// plan.large: the shared object is a LARGE sparse graph (plan.vertices > 1024 vertices, a hub with
+// more than 64 neighbours), the entry points return digests, and the readers run FIRST - in a
+// process in which no entry point has been called yet - the single-threaded baseline afterwards:
+// state that a first call initialises lazily, or that only exists beyond a size / degree
+// threshold, is then touched for the first time by concurrent threads.
 #include "objects.hpp"
 
 #include "BaseGraph/algorithms/paths.hpp"
@@ -175,6 +180,214 @@ template <class G> std::vector<Op> opsFor(const Obj<G> &sh, const std::string &c
     return ops;
 }
 
+// ---- large mode
+struct Digest {
+    unsigned long long h = 1469598103934665603ull;
+    void add(unsigned long long v) { h = (h ^ v) * 1099511628211ull; }
+    void addD(double d) { unsigned long long v; std::memcpy(&v, &d, sizeof v); add(v); }
+    std::string str() const { return std::to_string(h); }
+};
+
+template <class G> void addOne(G &g, VertexIndex i, VertexIndex j, unsigned r) {
+    using I = GInfo<G>;
+    if constexpr (I::kind == KindTag::Labeled)
+        g.addEdge(i, j, Lab<G>::enc((int)(r % 3)));
+    else if constexpr (I::kind == KindTag::Multi)
+        g.addMultiedge(i, j, 1 + r % 3);
+    else
+        g.addEdge(i, j, (double)(1 + r % 4));
+}
+
+template <class G> void buildLarge(G &g, unsigned seed, size_t n) {
+    std::mt19937 rng(seed);
+    g.resize(n);
+    for (VertexIndex v = 0; v + 1 < n; ++v)                 // a path through every vertex
+        addOne(g, v, v + 1, rng());
+    for (VertexIndex v = 2; v < n && v < 2 + 3 * 70; v += 3) // hub: 70 neighbours of vertex 0
+        addOne(g, 0, v, rng());
+    for (size_t k = 0; k < 2 * n; ++k)                       // random chords, loops included
+        addOne(g, (VertexIndex)(rng() % n), (VertexIndex)(rng() % n), rng());
+    for (VertexIndex v = 5; v < n; v += 97)                  // and a history: removals, a resize
+        g.removeEdge(v, v + 1 < n ? v + 1 : v);
+    g.removeVertexFromEdgeList((VertexIndex)(n / 2));
+    g.resize(n + 3);
+    addOne(g, (VertexIndex)(n + 2), 0, rng());
+    addOne(g, 1, (VertexIndex)(n + 1), rng());
+}
+
+template <class G> std::vector<Op> opsLarge(const Obj<G> &sh, const std::string &cls) {
+    using I = GInfo<G>;
+    const G &g = sh.g;
+    std::vector<Op> ops;
+    ops.push_back({"observers", [&](int) {
+                       Digest d;
+                       d.add(g.getSize());
+                       d.add(g.getEdgeNumber());
+                       for (VertexIndex v : g) {
+                           for (VertexIndex w : g.getOutNeighbours(v))
+                               d.add(w);
+                           d.add(g.hasEdge(v, (VertexIndex)((v * 7 + 3) % g.getSize())));
+                       }
+                       for (auto e : g.edges())
+                           d.add(e.first * 1000003ull + e.second);
+                       if constexpr (I::directed) {
+                           for (auto x : g.getInDegrees()) d.add(x);
+                           for (auto x : g.getOutDegrees()) d.add(x);
+                           d.add(g.getInDegree(0));
+                       } else {
+                           for (auto x : g.getDegrees()) d.add(x);
+                           d.add(g.getDegree(0));
+                       }
+                       return d.str();
+                   }});
+    ops.push_back({"copy_and_equality", [&](int) {
+                       auto c = sh.clone();
+                       bool e1 = sh.equals(*c), e2 = c->equals(sh), ne = sh.differs(*c);
+                       return std::string(e1 ? "1" : "0") + (e2 ? "1" : "0") + (ne ? "1" : "0");
+                   }});
+    ops.push_back({"stream_output", [&](int) { return std::to_string(hashStr(sh.text())); }});
+    if constexpr (I::kind == KindTag::Labeled) {
+        using L = typename I::Label;
+        ops.push_back({"subgraph", [&](int) {
+                           std::unordered_set<VertexIndex> S;
+                           for (VertexIndex v = 0; v < g.getSize(); v += 2)
+                               S.insert(v);
+                           auto sub = algorithms::getSubgraph(g, S);
+                           S.clear();
+                           for (VertexIndex v = 0; v < 40; ++v)
+                               S.insert(v * 5);
+                           auto pr = algorithms::getSubgraphWithRemap(g, S);
+                           Digest d;
+                           d.add(sub.getEdgeNumber());
+                           for (auto e : sub.edges()) d.add(e.first * 1000003ull + e.second);
+                           d.add(pr.first.getEdgeNumber());
+                           d.add(pr.first.getSize());
+                           d.add(pr.second.size());
+                           return d.str();
+                       }});
+        ops.push_back({"bfs_searches", [&](int) {
+                           Digest d;
+                           for (VertexIndex s : {(VertexIndex)0, (VertexIndex)(g.getSize() - 1)}) {
+                               auto p = algorithms::findVertexPredecessors(g, s);
+                               for (auto x : p.first) d.add(x);
+                               for (auto x : p.second) d.add(x);
+                               auto ap = algorithms::findAllVertexPredecessors(g, s);
+                               for (auto &l : ap.second) for (auto x : l) d.add(x);
+                               for (auto &path : algorithms::findGeodesicsFromVertex(g, s))
+                                   d.add(path.size());
+                               auto one = algorithms::findGeodesics(g, s, (VertexIndex)(g.getSize() / 3));
+                               for (auto x : one) d.add(x);
+                               d.add(algorithms::findAllGeodesics(g, s, (VertexIndex)(g.getSize() / 3)).size());
+                           }
+                           return d.str();
+                       }});
+        if constexpr (I::directed) {
+            ops.push_back({"reverse", [&](int) {
+                               auto r = g.getReversedGraph();
+                               Digest d;
+                               d.add(r.getEdgeNumber());
+                               for (auto e : r.edges()) d.add(e.first * 1000003ull + e.second);
+                               return d.str();
+                           }});
+            ops.push_back({"to_undirected", [&](int) {
+                               LabeledUndirectedGraph<L> u(g);
+                               Digest d;
+                               d.add(u.getEdgeNumber());
+                               for (auto e : u.edges()) d.add(e.first * 1000003ull + e.second);
+                               return d.str();
+                           }});
+        } else
+            ops.push_back({"to_directed", [&](int) {
+                               auto dg = g.getDirectedGraph();
+                               Digest d;
+                               d.add(dg.getEdgeNumber());
+                               for (auto e : dg.edges()) d.add(e.first * 1000003ull + e.second);
+                               return d.str();
+                           }});
+        if constexpr (std::is_same<L, NoLabel>::value || std::is_same<L, int>::value) {
+            ops.push_back({"write_files", [&, cls](int tid) {
+                               std::string t = g_tmp + "/" + cls + "-L" + std::to_string(tid) + ".txt";
+                               std::string b = g_tmp + "/" + cls + "-L" + std::to_string(tid) + ".bin";
+                               io::writeTextEdgeList(g, t);
+                               io::writeBinaryEdgeList(g, b);
+                               std::ifstream ft(t, std::ios::binary), fb(b, std::ios::binary);
+                               std::string st((std::istreambuf_iterator<char>(ft)), std::istreambuf_iterator<char>());
+                               std::string sb((std::istreambuf_iterator<char>(fb)), std::istreambuf_iterator<char>());
+                               return std::to_string(hashStr(st)) + ":" + std::to_string(st.size()) + "|" +
+                                      std::to_string(hashStr(sb)) + ":" + std::to_string(sb.size());
+                           }});
+        }
+    }
+    if constexpr (I::kind == KindTag::Weighted) {
+        ops.push_back({"dijkstra", [&](int) {
+                           Digest d;
+                           for (VertexIndex s : {(VertexIndex)0, (VertexIndex)(g.getSize() - 2)}) {
+                               auto r = algorithms::findGeodesicsDijkstra(g, s);
+                               for (double x : r.first) d.addD(x);
+                               for (auto x : r.second) d.add(x);
+                           }
+                           return d.str();
+                       }});
+    }
+    return ops;
+}
+
+// readers first, baseline afterwards
+template <class G> json runClassLarge(const std::string &cls, const json &plan) {
+    const int T = plan.value("threads", 4);
+    const int K = plan.value("iterations", 6);
+    const unsigned seed = plan.value("seed", 1u);
+    Obj<G> shared;
+    buildLarge(shared.g, seed * 104729u + (unsigned)cls.size(), plan.value("vertices", 1300));
+    const Obj<G> &sh = shared;
+    std::vector<Op> ops = opsLarge<G>(sh, cls);
+    // plan.first_op: the entry point ALL threads call first, at the same moment (one process per
+    // entry point: whatever it initialises on first use is initialised under contention)
+    size_t firstOp = 0;
+    for (size_t k = 0; k < ops.size(); ++k)
+        if (ops[k].name == plan.value("first_op", std::string("observers")))
+            firstOp = k;
+    std::atomic<int> go{0};
+    std::vector<std::vector<std::pair<int, std::string>>> got(T);
+    auto worker = [&](int tid) {
+        while (go.load(std::memory_order_relaxed) == 0) {
+        }
+        // every thread starts with a different entry point and then goes through all of them
+        for (int it = 0; it < K; ++it)
+            for (size_t j = 0; j < ops.size(); ++j) {
+                size_t k = (j + tid * 3 + it) % ops.size();
+                if (it == 0 && j == 0)
+                    k = firstOp;                                 // ... after one they all begin with
+                got[tid].push_back({(int)k, ops[k].run(tid + 1)});
+            }
+    };
+    {
+        std::vector<std::thread> th;
+        for (int t = 0; t < T; ++t)
+            th.emplace_back(worker, t);
+        go.store(1, std::memory_order_relaxed);
+        for (auto &x : th)
+            x.join();
+    }
+    std::vector<std::string> base(ops.size());
+    json wsViol = json::array(), mm = json::array();
+    for (size_t k = 0; k < ops.size(); ++k) {
+        base[k] = ops[k].run(0);
+        if (ops[k].run(0) != base[k])
+            wsViol.push_back(ops[k].name + " is not repeatable single-threaded");
+    }
+    for (int t = 0; t < T; ++t)
+        for (auto &kr : got[t])
+            if (kr.second != base[kr.first] && mm.size() < 6)
+                mm.push_back(ops[kr.first].name);
+    json opn = json::array();
+    for (auto &o : ops)
+        opn.push_back(o.name);
+    return {{"class", cls + "[large]"}, {"ops", opn}, {"threads", T}, {"iterations_per_thread_per_phase", K},
+            {"vertices", sh.g.getSize()}, {"edges", sh.g.getEdgeNumber()},
+            {"result_mismatches", mm}, {"write_set_violations", wsViol}, {"events", 0}};
+}
+
 struct Event {
     unsigned long stamp;
     int t;
@@ -280,6 +493,10 @@ int main(int argc, char **argv) {
     json out = json::array();
     auto run = [&](auto tag, const std::string &cls) {
         using G = typename decltype(tag)::type;
+        if (plan.value("large", false)) {
+            out.push_back(runClassLarge<G>(cls, plan));
+            return;
+        }
         std::ofstream logf(logDir + "/" + cls + ".ndjson");
         out.push_back(runClass<G>(cls, plan, logf, true));
     };
